@@ -106,6 +106,7 @@ ENTRY_FNS = {
                    "_lookup", "_getcache", "_subcache"] + PROVIDED_BY,
     "lookupAll": ["_lookupAll", "_subcache"],
     "subscriptions": ["_subscriptions", "_subcache"],
+    "queryMultiAdapter": ["_lookup", "_getcache", "_subcache"] + PROVIDED_BY,
     "changed": [],
 }
 FLAVOUR_FNS = {"LB": ["LB_changed", "LB_clear"], "AR": ["LB_changed", "LB_clear"],
@@ -120,7 +121,7 @@ POINTS = {
     "iface_call": ["conform", "providedBy_desc", "uncached", "factory"],
     "changed": [],
 }
-PY_ENTRY = {"changed": 5, "lookup": 0, "lookup1": 1, "adapter_hook": 2, "queryAdapter": 2, "iface_call": 2, "lookupAll": 3,
+PY_ENTRY = {"changed": 5, "queryMultiAdapter": 0, "lookup": 0, "lookup1": 1, "adapter_hook": 2, "queryAdapter": 2, "iface_call": 2, "lookupAll": 3,
             "subscriptions": 4}
 
 
@@ -164,6 +165,14 @@ def generate(run, tier):
                     continue
                 cases.append({"flavour": flavour, "entry": entry, "point": "none", "action": "none", "named": False,
                               "variant": "fail_after_success", "fail": fail, "repeat": 1000})
+    # super proxies as looked-up objects: the unwrapped object must not gain references
+    for flavour in ("LB", "VB", "AR"):
+        for entry in ("adapter_hook", "queryAdapter") + (("queryMultiAdapter", "subscriptions") if flavour == "AR" else ()):
+            for kind in ("inst", "cls", "sub"):
+                for fac in ("adapter", "none", "raise", "mutate"):
+                    cases.append({"flavour": flavour, "entry": "subscriptions" if entry == "subscriptions" else entry,
+                                  "point": "none", "action": "none", "named": False, "variant": "super_proxy",
+                                  "kind": kind, "fac": fac, "repeat": 2000})
     return cases
 
 
@@ -189,14 +198,15 @@ def coq_case(case, obs, mode):
     return "(mkCase %s %s %d %s %s %s %s %s %s %s %d)" % (
         C.cbool(mode == "c"), C.clist([str(i) for i in _fns(case)]), PY_ENTRY[case["entry"]],
         C.cbool(bool(obs["fired"])), C.cbool(obs["owned"]), C.cN(obs["answer"]),
-        C.cbool(case["action"] == "raise" or case["point"] == "destructor" or bool(case["variant"])),
+        C.cbool(case["action"] == "raise" or case["point"] == "destructor" or bool(case["variant"]) or case.get("fac") == "raise"),
         C.cbool(obs["second"]), C.cZ(obs["growth_objs"]), C.cZ(obs["growth_refs"]), obs.get("repeat", 0))
 
 
 def classify(case, obs):
     if "skip" in obs or "error" in obs or not obs.get("fired") or case["point"] == "none":
         return None
-    return (case["flavour"], case["entry"], case["point"], case["action"], case["named"], case["variant"], case.get("fail"))
+    return (case["flavour"], case["entry"], case["point"], case["action"], case["named"], case["variant"], case.get("fail"),
+            case.get("kind"), case.get("fac"))
 
 
 def kind(case, obs):
